@@ -74,8 +74,8 @@ CHECKS = {
    text="For every conflicting grammar of the universes the public fields of the real KikiErr::TableConflict (state index, both items, attached automaton, attached grammar) are serialised and judged by TLC: index in range, both items members of that state, ItemActs differ on one lookahead, attached automaton equals LALRStates/LALRTrans of the grammar up to renumbering, attached grammar equals the rendered input grammar.",
    note="As C04. The attached-grammar comparison is structural (start, terminals with types, nonterminals, rules, field patterns) and done by the driver."),
  "C17": dict(engine="pipeline", design="5 C17, 3.3, 3.4",
-   technique="TLC model checking of Builder.tla under all worklist schedules (MC_Builder) + TLC-judged tables read back from the emitted Rust text and from the Table value (PipelineJudge: TablesMatch) + trace validation of builder events",
-   text="Builder.tla (merge-on-the-fly worklist, any queue order, any symbol order) is shown by TLC to end in exactly LR(1)-merged-by-core for every grammar of the bounded universe; the tables of every accepted grammar are parsed out of the real emitted text (and cross-checked with the Table value from the hook) and judged by TLC with TablesMatch: bijection between table states and LALR states found by a deterministic walk, every action/goto cell equal, error elsewhere.",
+   technique="TLC model checking of FirstSets.tla, Closure.tla and Builder.tla (every worklist schedule; FIFO variants with termination) + TLC-judged tables read back from the emitted Rust text and from the Table value (PipelineJudge: TablesMatch) + trace validation of the recorded FIRST passes, closure-loop iterations, builder and table-fill events (PipelineTrace, ClosureTrace)",
+   text="FirstSets.tla (pass structure of first_set_map.rs) reaches exactly the least fixed point, Closure.tla (the get_closure queue loop, any service order and first-in first-out) ends in exactly LR1!Closure of every kernel the builder can close, and Builder.tla (merge-on-the-fly worklist, any queue order, any symbol order) ends in exactly LR(1)-merged-by-core, for every grammar of the bounded universe and the classics; the tables of every accepted grammar are parsed out of the real emitted text (and cross-checked with the Table value from the hook) and judged by TLC with TablesMatch: bijection between table states and LALR states found by a deterministic walk, every action/goto cell equal, error elsewhere. Recorded executions of the real FIRST iteration, closure loop, builder and table filler are validated line by line against the same specifications (diagnostic: CONFORMANCE-DRIFT).",
    note="As C04. Table extraction from the emitted text is structural (locates get_action/get_goto, the kind enums and the two statics independent of the fresh names); a format the extractor cannot read is a tool error (exit 2), never a violation."),
 }
 
